@@ -941,7 +941,7 @@ const STRINGISH_CT: [ColumnType; 14] = [
 ];
 
 /// A (column, must-accept value) pair of a "natural" kind.
-fn gen_natural(rng: &mut Rng, big: bool) -> (ColumnType, ColumnFlags, V) {
+pub fn gen_natural(rng: &mut Rng, big: bool) -> (ColumnType, ColumnFlags, V) {
     let u = ColumnFlags::UNSIGNED_FLAG;
     let e = ColumnFlags::empty();
     match rng.below(20) {
@@ -975,7 +975,7 @@ fn gen_natural(rng: &mut Rng, big: bool) -> (ColumnType, ColumnFlags, V) {
 }
 
 /// A fresh value of the same Rust type as `proto`.
-fn gen_like(rng: &mut Rng, proto: &V, big: bool) -> V {
+pub fn gen_like(rng: &mut Rng, proto: &V, big: bool) -> V {
     match proto {
         V::I8(_) => V::I8(edge_int(rng, -128, 127) as i8),
         V::U8(_) => V::U8(edge_int(rng, 0, 255) as u8),
